@@ -38,25 +38,29 @@ def budget(tier):
 def strategy(tier):
     geom = st.tuples(st.one_of(st.integers(1, 8), st.integers(1, 60)),
                      st.one_of(st.sampled_from([0.5, 0.3, 0.1, 0.05, 0.01, 0.001]), gen.fpr_st(9.0)))
+    # 1 Bloom case in ~30: bit arrays beyond 1 MiB (block-wise implementations process the array in chunks; the second and later
+    # chunks of an on-disk operand are what matters), no second round then
+    big_geom = st.tuples(st.sampled_from([900000, 1000000, 1800000]), st.just(0.01))
     bloom = st.fixed_dictionaries({
-        "t": st.just("bloom"), "geom": geom, "hash": gen.hash_name_st(), "pool": gen.pool_st(2, 10),
+        "t": st.just("bloom"), "geom": st.integers(0, 29).flatmap(lambda z: big_geom if z == 0 else geom), "hash": gen.hash_name_st(gen.ALL_HASHES + ["textonly"]), "pool": gen.pool_st(2, 10),
         "ka": st.sampled_from(["bloom", "ondisk"]), "kb": st.sampled_from(["bloom", "ondisk"]),
-        "sa": so.stream_st(False), "sb": so.stream_st(False), "sx": so.stream_st(False, max_len=4), "chain": st.sampled_from([0, 0, 1, 2]),
+        "sa": so.stream_st(False), "sb": so.stream_st(False), "sx": so.stream_st(False, max_len=4), "chain": st.sampled_from([0, 0, 1, 2]), "fresh_hf": st.booleans(),
         "va": st.sampled_from(so.OPERAND_VARIANTS), "vb": st.sampled_from(so.OPERAND_VARIANTS), "nudge": st.sampled_from([0, 0, 0, 1]),
         "frac": st.sampled_from([0, 0, 0, 0, 0, 0.5, 0.25]),
         "p2": st.one_of(st.none(), st.fixed_dictionaries({"ca": st.booleans(), "cb": st.booleans(), "sa2": so.stream_st(False, max_len=5),
                                                            "sb2": so.stream_st(False, max_len=5)}))})
     cb = st.fixed_dictionaries({
-        "t": st.just("cbloom"), "geom": geom, "hash": gen.hash_name_st(), "pool": gen.pool_st(2, 10),
-        "sa": so.stream_st(True), "sb": so.stream_st(True), "sx": so.stream_st(True, max_len=4), "chain": st.sampled_from([0, 0, 1, 2]),
+        "t": st.just("cbloom"), "geom": geom, "hash": gen.hash_name_st(gen.ALL_HASHES + ["textonly"]), "pool": gen.pool_st(2, 10),
+        "sa": so.stream_st(True), "sb": so.stream_st(True), "sx": so.stream_st(True, max_len=4), "chain": st.sampled_from([0, 0, 1, 2]), "fresh_hf": st.booleans(),
         "va": st.sampled_from(["same", "same", "reload", "hex"]), "vb": st.sampled_from(["same", "same", "reload", "hex"]),
         "nudge": st.sampled_from([0, 0, 0, 1]), "frac": st.sampled_from([0, 0, 0, 0, 0, 0.5, 0.25]),
         "p2": st.one_of(st.none(), st.fixed_dictionaries({"ca": st.booleans(), "cb": st.booleans(), "sa2": so.stream_st(True, max_len=5),
                                                            "sb2": so.stream_st(True, max_len=5)}))})
     cms = st.fixed_dictionaries({
         "t": st.just("cms"), "w": st.one_of(st.integers(1, 3), st.integers(1, 8)), "d": st.integers(1, 5),
-        "hash": gen.hash_name_st(), "pool": gen.pool_st(2, 10), "qt": st.sampled_from(["min", "mean", "mean-min"]), "raw": st.booleans(), "balance": st.booleans(),
-        "sa": so.stream_st(True), "sb": so.stream_st(True), "sx": so.stream_st(True, max_len=4), "chain": st.sampled_from([0, 0, 1, 2])})
+        "hash": gen.hash_name_st(gen.ALL_HASHES + ["textonly"]), "pool": gen.pool_st(2, 10), "qt": st.sampled_from(["min", "mean", "mean-min"]), "raw": st.booleans(), "balance": st.booleans(),
+        "sa": so.stream_st(True), "sb": so.stream_st(True), "sx": so.stream_st(True, max_len=4), "chain": st.sampled_from([0, 0, 1, 2]),
+        "fresh_hf": st.booleans()})
     return st.one_of(bloom, cb, cms)
 
 
@@ -79,6 +83,15 @@ def run_case(case, ctx):
             est, fpr = case["geom"]
             ka, kb = (case["ka"], case["kb"]) if t == "bloom" else ("counting", "counting")
             frac, va, vb = case.get("frac") or 0, case.get("va", "same"), case.get("vb", "same")
+            big = est >= 500000
+            if big:
+                case = dict(case, p2=None, chain=0)
+                chain = 0
+                if t == "bloom" and "ondisk" not in (ka, kb):
+                    kb = "ondisk"
+                va = va if va in ("same", "file_ondisk", "handle2") else "same"
+                vb = vb if vb in ("same", "file_ondisk", "handle2") else "same"
+                ctx.feat("bit_array_over_1MiB")
             if frac:
                 # a fractional est_elements (len(items) * 1.5) is accepted by the in-memory constructors and sizes the filter from
                 # the fraction; such filters cannot be exported on the pinned tree, so only the in-memory operations are judged
@@ -150,7 +163,12 @@ def run_case(case, ctx):
             name = "C12.bloom_union" if t == "bloom" else "C12.cbloom_union"
             kind_u = "counting" if t == "cbloom" else "bloom"
             cu, cs = so.cells(U, kind_u), so.cells(S, kind_u)
-            ctx.check(name, cu == cs, lambda: f"union cells differ from the single-stream structure: {cu.hex()} != {cs.hex()}")
+            def _cells_msg():
+                i = next((j for j, (x, y) in enumerate(zip(cu, cs)) if x != y), min(len(cu), len(cs)))
+                if len(cu) > 4096:
+                    return f"union cells differ from the single-stream structure (lengths {len(cu)}/{len(cs)}), first at byte {i}: {cu[i:i+8].hex()} != {cs[i:i+8].hex()}"
+                return f"union cells differ from the single-stream structure: {cu.hex()} != {cs.hex()}"
+            ctx.check(name, cu == cs, _cells_msg)
             ctx.check(name, so.cells(A, ka) == ca and so.cells(B, kb) == cb_, "union modified an operand")
             for k in pool:
                 if t == "bloom":
